@@ -129,6 +129,16 @@ Check(tr, e) ==
                 ELSE IF exp # e.v THEN "value"
                 ELSE IF obs # e.v THEN "dec"
                 ELSE ""
+      [] e.ev = "CDecodeEvolved" ->
+            \* C receiver t (zeroed struct) decodes what sender e.tS encoded from e.vS
+            LET bvS == ToBitsV(e.tS, e.vS)
+                w == Enc(e.tS, bvS)
+                by == Bytes(w)
+                rv == RestrictV(t, e.tS, bvS)
+                img == StorageV(t, rv)
+            IN  IF e.bytes # by THEN "sender-bytes"
+                ELSE IF e.mem # img THEN "mem"
+                ELSE ""
       [] e.ev = "Size" -> IF e.n # NBytes(t) THEN "size" ELSE ""
       [] e.ev = "Json" ->
             LET bv == ToBitsV(t, e.v)
